@@ -146,18 +146,26 @@ theorem rulePipe_local : RuleLocal clsPipe rulePipe := by
   rule_cases h
   all_goals (simp only [drop_, Option.some.injEq] at h; subst h; apply actLocal_drop; simp_all [clsPipe])
 
-theorem ruleSemi_local : RuleLocal clsSemi ruleSemi := by
-  intro enc lo p2 p1 t rest a h
-  unfold ruleSemi at h
-  rule_cases h
-  all_goals (simp only [drop_, Option.some.injEq] at h; subst h; apply actLocal_drop; simp_all [clsSemi])
+theorem semiSep_local : ∀ (ts : List Tok) (st : List Bool) (cur : Bool) (start : Nat) (lo : Tok),
+    outside clsSemi (semiSep st cur start lo ts) = outside clsSemi ts := by
+  intro ts
+  induction ts with
+  | nil => intros; simp [semiSep]
+  | cons t ts ih =>
+    intro st cur start lo
+    unfold semiSep
+    simp only []
+    repeat' split
+    all_goals simp only [outside_cons, ih]
+    all_goals simp_all [clsSemi]
 
 theorem ruleComma_local : RuleLocal clsComma ruleComma := by
   intro enc lo p2 p1 t rest a h
   unfold ruleComma at h
   rule_cases h
-  all_goals (simp only [drop_, Option.some.injEq] at h; subst h; apply actLocal_drop; simp_all [clsComma])
-
+  · cases h
+    exact ⟨rfl, by simp, by simp⟩
+  · simp only [drop_, Option.some.injEq] at h; subst h; apply actLocal_drop; simp_all [clsComma]
 
 theorem clsDelim_of_open {t : Tok} (h : t.isOpen = true) : clsDelim t = true := by simp [clsDelim, h]
 theorem clsDelim_close : ∀ c : Tok, c.isClose = true → clsDelim c = true := by intro c h; simp [clsDelim, h]
@@ -197,8 +205,19 @@ theorem paren_act_local {t : Tok} (h : t.isO '(' = true) :
 theorem ruleParen_local : RuleLocal clsDelim ruleParen := by
   intro enc lo p2 p1 t rest a h
   unfold ruleParen at h
-  rule_cases h
-  all_goals (cases h; apply paren_act_local; simp_all)
+  by_cases ht : t.isO '(' = true
+  · have hS : clsDelim t = true := clsDelim_of_open (isO_isOpen ht)
+    simp only [ht, if_true] at h
+    rule_cases h
+    all_goals
+      cases h
+      refine ⟨?_, ?_, by simp⟩
+      · simp [outside_cons, hS]
+      · intro o ho
+        simp only [Option.some.injEq, reduceCtorEq] at ho
+        try (subst ho; exact ⟨rfl, clsDelim_close⟩)
+  · simp only [ht] at h
+    cases h
 
 theorem ruleLitParen_local : RuleLocal clsDelim ruleLitParen := by
   intro enc lo p2 p1 t rest a h
@@ -233,13 +252,13 @@ theorem ruleBlock_local : RuleLocal clsBlock ruleBlock := by
   all_goals refine actLocal_mk _ _ _ ?_ ?_ hcl hcomma
   all_goals simp [outside_cons, ht, h1, h2]
 
-theorem whereSep_local : ∀ (ts : List Tok) (w : Bool) (d : Nat),
-    outside clsComma (whereSep w d ts) = outside clsComma ts := by
+theorem whereSep_local : ∀ (ts : List Tok) (w : Bool) (d a : Nat) (pm : Bool),
+    outside clsComma (whereSep w d a pm ts) = outside clsComma ts := by
   intro ts
   induction ts with
   | nil => intros; simp [whereSep]
   | cons t ts ih =>
-    intro w d
+    intro w d a pm
     unfold whereSep
     repeat' split
     all_goals simp only [outside_cons, ih]
@@ -307,11 +326,11 @@ def postSoft (cfg : Cfg) (ts : List Tok) : List Tok :=
   let ts := runRule ruleVec ts
   let ts := runRule ruleAbi ts
   let ts := runRule ruleVis ts
-  let ts := whereSep false 0 ts
+  let ts := whereSep false 0 0 false ts
   let ts := runRule ruleEmpty ts
   let ts := runRule rulePipe ts
   let ts := closureSep 0 0 noTok ts
-  let ts := runRule ruleSemi ts
+  let ts := semiSep [] false 1 noTok ts
   let ts := runRule ruleBlock ts
   let ts := runRule ruleComma ts
   let ts := onlyIf cfg.parens (runRule ruleParen) ts
@@ -338,11 +357,11 @@ theorem postSoft_hards (cfg : Cfg) (ts : List Tok) : hards cfg (postSoft cfg ts)
     · rfl
   rw [hp, runRule_hards cfg ruleComma_local (clsComma_soft cfg),
       runRule_hards cfg ruleBlock_local (clsBlock_soft cfg),
-      runRule_hards cfg ruleSemi_local (clsSemi_soft cfg),
+      hards_eq_outside, outside_mono (clsSemi_soft cfg) (semiSep_local _ [] false 1 noTok), ← hards_eq_outside,
       hards_eq_outside, outside_mono (clsComma_soft cfg) (closureSep_local _ 0 0 noTok), ← hards_eq_outside,
       runRule_hards cfg rulePipe_local (clsPipe_soft cfg),
       runRule_hards cfg ruleEmpty_local (clsEmpty_soft cfg),
-      hards_eq_outside, outside_mono (clsComma_soft cfg) (whereSep_local _ false 0), ← hards_eq_outside,
+      hards_eq_outside, outside_mono (clsComma_soft cfg) (whereSep_local _ false 0 0 false), ← hards_eq_outside,
       runRule_hards cfg ruleVis_local (clsVis_soft cfg),
       runRule_hards cfg ruleAbi_local (clsAbi_soft cfg),
       runRule_hards cfg ruleVec_local (clsDelim_soft cfg)]
